@@ -200,8 +200,13 @@ def run_case(case):
     yp = sp.nufft(x0, coord + shift, oversamp=ov, width=w)
     checks += 1
     pe = nrm(yp - y) / max(nrm(y), np.sqrt(Mtot / N) * nrm(x0), 1e-300)
-    obs["periodicity"] = pe
-    if not pe <= 1e-9:
+    # Coordinates that land exactly on a window edge of the oversampled grid (integer and
+    # half-integer classes) sit on the kernel's discontinuity (I0(0) = 1 at |u| = 1): a
+    # rounding difference of 1 ulp in k*scale+shift legitimately includes or drops an edge
+    # sample, so there both results are only required to agree within the accuracy class.
+    ptol = 1e-9 if case["ccls"] not in ("integer", "ties") else 2 * (th or 0.1)
+    obs["periodicity" if ptol == 1e-9 else "periodicity_ties"] = pe
+    if not pe <= ptol:
         return violated(sig, "not periodic in the coordinates: shifting axis %d by %d changes "
                         "the result by %.3g" % (d, shift[d], pe), wit, mech="periodicity",
                         obs=obs)
